@@ -6,6 +6,13 @@ import os
 VERIF = os.path.dirname(os.path.dirname(os.path.abspath(__file__)))
 
 CLAIMED = {
+    'C18': dict(
+        technique='static analysis: dataflow of every tile-number return through clamp(), ORDERTYPE proof of clamp over all orderings, constant evaluation',
+        text='Decides ONLY the in-range clause and constants: every return of mercx_to_tilex/mercy_to_tiley comes from clamp(v, 0, num_tiles_in_zoom(zoom)-1) with v computed from the same '
+             'zoom; clamp is comparison-only and correct for all orderings; num_tiles = 1<<zoom; Tile constructors route the right axis through the right function; Tile::valid() predicate; '
+             'earth-radius / max-coordinate / max-latitude constants agree. NOT decided (numerical, outside this technique): accuracy of the latitude approximation, strict monotonicity, '
+             'projection round trip, double->int conversion at the poles, tile nesting across zooms.',
+        design='5/C18', note='narrow structural clause only; trusts clang constant folding'),
     'C19': dict(
         technique='static analysis: lockset + wake-up pairing dataflow on clang CFGs of every Queue<T> instantiation (custom libTooling extractor + Python rules)',
         text='Decides the monitor discipline of thread::Queue (all std::queue accesses under the mutex; insert->notify consumers and '
@@ -32,6 +39,21 @@ CLAIMED = {
              'nothing read through the read iterator after the move, counters from the write iterator; non-copyable/non-movable witnesses. '
              'NOT decided: byte equality of stored content, padded_length arithmetic.',
         design='5/C04', note='trusts the frozen relocating/derivation tables (DESIGN appendix B), clang CFG; untracked: references with unknown root (function parameters)'),
+    'C02': dict(
+        technique='static analysis: PBF dispatch-table rules over the resolved decoder (CODEC), dependency/formula extraction for block parameters, exhaustive 256-value evaluation of byte predicates, o5m ring constants by role',
+        text='Decides: every tag_and_type switch has a default that skips exactly once and every case consumes its field exactly once on each path; every field of the spec enums has a '
+             'reader case; lon/lat conversion is (v*granularity+own offset)/resolution and every Location/timestamp in the block decoder goes through it; block parameters are assigned '
+             'only from their own field, with spec defaults, before the data pass; the 4-byte blob length is big-endian with zero-extended bytes and both input paths apply the size '
+             'limit; o5m reset clears every delta decoder and the reference table exactly on 0xff; o5m reference ring add/get/constants agree. One instance is a genuine defect (F15). '
+             'NOT decided: decoded values vs an independent encoder, delta chains, XML/OPL decoding, agreement of the four readers.',
+        design='5/C02', note='trusts protobuf_tags.hpp as spec witness, clang constant folding, driver instantiation set; o5m window validity is decided under C06'),
+    'C06': dict(
+        technique='static analysis: member typestate for window pointers aliasing the carry-over string (STALE), mutation whitelist and CFG pairing/loop-exit rules on every carry-over buffer',
+        text='Decides: window pointers into the o5m carry-over string are re-derived after every relocating call before each normal exit (two instances are the genuine defect F2); '
+             'every mutation of a carry-over member is append-whole-piece / erase-consumed-prefix / keep-suffix; every popped piece is kept or fed before the next pop; refill loops exit '
+             'only when enough bytes are present; truncation/EOF decisions are guarded by the queue\'s end-of-input state; XML_Parse gets the piece and isFinal from the queue state; '
+             'fixed-size fd reads go through an accumulating read_exactly. NOT decided: equality of results for every segmentation, CR/LF logic, PBF refill arithmetic.',
+        design='5/C06', note='trusts clang CFG, the STALE relocation/derivation tables for std::string'),
     'C07': dict(
         technique='static analysis: interprocedural escaping-exception fixpoint + CFG must-pass/post-dominance + member-order (LAYOUT) rules over the libTooling fact base',
         text='Decides the structural links of the reader pipeline: thread entries cannot leak an exception; catch-all handlers forward current_exception and '
